@@ -22,6 +22,10 @@ class Unsupported(AnalysisError):
     pass
 
 
+class MaskMismatch(Unsupported):
+    """out[c1] = f(val[c2]) with c1 != c2: the values written are not those of the rows they are written to."""
+
+
 class NestedRounding(Unsupported):
     """outer(inner(x) * s): two roundings in a row that do not collapse into one."""
 
@@ -230,7 +234,8 @@ class Kernel:
                     # masks used inside the value must be this very condition
                     for m in _top_masks(value):
                         if m[2] != cond:
-                            self.bad(value, '(value selected with a different mask than the target)')
+                            raise MaskMismatch(self.rule, 'value selected with a different mask than the target: '
+                                               f'{T.show(m[2], maxlen=80)} vs {T.show(cond, maxlen=80)}')
                     out.extend(self.ev(value, pp))
                 else:
                     out.extend(self.ev(old, pp))
